@@ -183,9 +183,12 @@ def _writes_through_self(lib, st, b, nf, depth):
                 if rv["op"]["place"]["l"] in whole:
                     whole.add(place["l"])
                 grew = True
+    hints = {"f%d" % k for k in common.hint_fields(lib, st.struct)}
     for bb, idx, place, rv, stmt in b.assignments():
         if place["l"] in alias and place["p"] and place["p"][0] == "deref":
             fld = [p for p in place["p"][1:] if p.startswith("f")]
+            if fld and fld[0] in hints:
+                continue      # a capacity hint: read only to size a buffer, decides and writes nothing
             if not fld or fld[0] != nf:
                 return ("assignment to self.%s" % _fname(st, fld[0] if fld else "?"), b.where(bb))
         if rv["k"] == "ref" and rv["mutbl"] and rv["place"]["l"] in alias and rv["place"]["p"][:1] == ["deref"]:
